@@ -9,7 +9,7 @@
    Dependencies() lists the inputs is an oracle; [sorted_oracle] is the repaired code (sort by name),
    [oracle_ok] only asks that each enumeration is a permutation of the inputs (a Go map iteration). *)
 From Coq Require Import String.
-From PF Require Import Base.Bytes Graph.Nodes Graph.NodesProofs.
+From PF Require Import Base.Bytes Graph.Nodes Graph.NodesProofs Graph.NodesMore.
 Local Open Scope nat_scope.
 
 (* Sentence 1: reading a node output returns the value that evaluating the current graph from scratch
@@ -252,3 +252,112 @@ Proof.
   split; [vm_compute; reflexivity|]. split; [vm_compute; reflexivity|]. split; [vm_compute; reflexivity|].
   split; [vm_compute; reflexivity|]. split; [vm_compute; reflexivity|]. eexists; vm_compute; reflexivity.
 Qed.
+
+(* ====================================================================================================== *)
+(* Round 4 additions (proofs in Graph/NodesMore.v)                                                          *)
+
+(* TOTALITY + FRESHNESS for EVERY permutation oracle — also one that changes from call to call (the pinned map
+   iteration): after every history, reading any existing node returns, and returns the from-scratch value.
+   No hypothesis on the read, none on the order beyond "each enumeration lists the inputs". *)
+Theorem read_total_and_fresh_any_order : forall orc ds h s n,
+  oracle_ok orc -> run orc (init ds) h = Some s -> n < length (nodes s) ->
+  exists s' v, read orc s n = Some (s', v) /\ eval_now s n = Some v.
+Proof.
+  intros orc ds h s n OK R Hn.
+  destruct (read_total_any_order orc ds h s n OK R Hn) as (s' & v & Hr).
+  exists s', v. split; auto.
+  exact (proj1 (read_fresh_any_order orc ds h s n s' v OK R Hr)).
+Qed.
+Print Assumptions read_total_and_fresh_any_order.
+
+(* A second read is a no-op.  After reading node n, reading n again — or any node m of its cone — returns the
+   from-scratch value (for n: the same v) and leaves the WHOLE node table unchanged: nothing executes, no
+   version moves, nothing is re-recorded. *)
+Theorem second_read_is_noop : forall ds h s n s1 v m,
+  run sorted_oracle (init ds) h = Some s -> read sorted_oracle s n = Some (s1, v) ->
+  reach (graph_of (nodes s1)) n m ->
+  exists s2 w, read sorted_oracle s1 m = Some (s2, w) /\ nodes s2 = nodes s1 /\ eval_now s1 m = Some w /\
+               (m = n -> w = v).
+Proof.
+  intros ds h s n s1 v m.
+  exact (read_cone_again_noop sorted_order ds h s n s1 v m sorted_order_stable).
+Qed.
+Print Assumptions second_read_is_noop.
+
+(* "its version increases by exactly one per execution": during ONE read every node executes at most once, and
+   the version of every struct node grows by exactly the number of its executions during that read (0 or 1). *)
+Theorem at_most_one_execution_per_read : forall ds h s n s' v m,
+  run sorted_oracle (init ds) h = Some s -> read sorted_oracle s n = Some (s', v) ->
+  execs_of (nodes s) m <= execs_of (nodes s') m <= S (execs_of (nodes s) m).
+Proof.
+  intros ds h s n s' v m R Hr.
+  exact (exec_at_most_once_per_read sorted_order ds h s n s' v sorted_order_stable R Hr m).
+Qed.
+Print Assumptions at_most_one_execution_per_read.
+
+Theorem version_step_per_read : forall ds h s n s' v m sn sn',
+  run sorted_oracle (init ds) h = Some s -> read sorted_oracle s n = Some (s', v) ->
+  nth_error (nodes s) m = Some (Struct sn) -> nth_error (nodes s') m = Some (Struct sn') ->
+  sn_ver sn' - sn_ver sn = sn_execs sn' - sn_execs sn /\ sn_ver sn <= sn_ver sn' <= S (sn_ver sn).
+Proof.
+  intros ds h s n s' v m sn sn'.
+  exact (read_version_step sorted_order ds h s n s' v m sn sn' sorted_order_stable).
+Qed.
+Print Assumptions version_step_per_read.
+
+(* ... and this too is FALSE for the pinned map order: in a diamond, ONE read executes the shared two-input node
+   twice (the second consumer compares the remembered versions in the other order); the value read is right. *)
+Theorem once_per_read_refuted :
+  exists orc ds h s1 s2 n m v,
+    oracle_ok orc /\ run orc (init ds) h = Some s1 /\ read orc s1 n = Some (s2, v) /\
+    execs_of (nodes s2) m = 2 + execs_of (nodes s1) m /\ eval_now s1 n = Some v.
+Proof.
+  destruct twice_witness as (s1 & s2 & R & E0 & Hr & E2 & Ev).
+  exists (const_oracle flip_order), twice_decls, twice_hist, s1, s2, 5, 2, 16%Z.
+  split; [exact flip_oracle_ok|]. split; [exact R|]. split; [exact Hr|]. split; [rewrite E2, E0; reflexivity | exact Ev].
+Qed.
+Print Assumptions once_per_read_refuted.
+
+(* COMPLETENESS of State() (the converse of "a clean node stays clean while its cone is untouched"): right after
+   an accepted update of parameter p — even to the value it already has — every other node whose cone contains p
+   reports Stale; right after an accepted Connect / Disconnect on node t, every node whose cone contains t
+   (t included) reports Stale.  Under every enumeration order, for the history and for the question alike.
+   Together with [exec_only_if_cone_changed_counters]: State() = Stale exactly when the cone was touched since
+   the node's last execution (or it never executed). *)
+Theorem state_stale_after_parameter_update : forall orc ds h s p v s' r n po,
+  oracle_ok orc -> perm_ok po ->
+  run orc (init ds) h = Some s -> step orc s (SetParam p v) = Some (s', r) ->
+  reach (graph_of (nodes s')) n p -> n <> p ->
+  state_of po (nodes s') n = Some true.
+Proof.
+  intros orc ds h s p v s' r n po OK PO R Hs Hr Hne.
+  exact (state_stale_after_set_param orc ds h s p v s' r n OK R Hs Hr Hne po PO).
+Qed.
+Print Assumptions state_stale_after_parameter_update.
+
+Theorem state_stale_after_rewiring : forall orc ds h s o s' r n po,
+  oracle_ok orc -> perm_ok po ->
+  run orc (init ds) h = Some s -> step orc s o = Some (s', r) ->
+  (match o with Connect _ _ _ | Disconnect _ _ => True | _ => False end) ->
+  reach (graph_of (nodes s')) n (NodesProofs.target o) ->
+  state_of po (nodes s') n = Some true.
+Proof.
+  intros orc ds h s o s' r n po OK PO R Hs Ho Hr.
+  exact (state_stale_after_rewire orc ds h s o s' r n OK R Hs Ho Hr po PO).
+Qed.
+Print Assumptions state_stale_after_rewiring.
+
+(* non-vacuity of the round 4 statements: the diamond under the repaired order executes the shared node once in
+   the read; a parameter update to the SAME value turns its consumer Stale and the next read executes it *)
+Example c11_once_example :
+  exists s1 s2,
+    run sorted_oracle (init twice_decls) twice_hist = Some s1 /\ execs_of (nodes s1) 2 = 0 /\
+    read sorted_oracle s1 5 = Some (s2, 16%Z) /\ execs_of (nodes s2) 2 = 1.
+Proof. exact once_witness. Qed.
+
+Example c11_state_example :
+  exists s1 s2 s3,
+    run sorted_oracle (init spurious_decls) spurious_hist = Some s1 /\ state_of sorted_order (nodes s1) 2 = Some false /\
+    run sorted_oracle s1 [SetParam 0 3%Z] = Some s2 /\ state_of sorted_order (nodes s2) 2 = Some true /\
+    read sorted_oracle s2 2 = Some (s3, 8%Z) /\ execs_of (nodes s3) 2 = 2 /\ state_of sorted_order (nodes s3) 2 = Some false.
+Proof. exact state_witness. Qed.
